@@ -573,11 +573,11 @@ fn enumerated(seed: u64, tier: Tier) -> Vec<Case> {
             v.push(mk(Fault::Kill { syscall: "write".into(), k }));
         }
     }
-    // a single row longer than the 4 MB buffer (an output script of 2.2 MB is a 4.4 MB line of tx_out.csv): such a write
+    // a single row longer than the 4 MB buffer (an output script of 2.2 MB is a 4.4 MB line of tx_out.csv - the LAST line, so that no later write can report what this one lost): such a write
     // bypasses the buffer, so its failure or shortness must be noticed at once
     {
         let mut scripts: Vec<Vec<u8>> = (0..4usize).map(|i| vec![0x51 + i as u8]).collect();
-        scripts[2] = { let mut sc = vec![0x6a]; sc.extend((0..2_200_000u32).map(|k| (k % 233) as u8)); sc };
+        scripts[3] = { let mut sc = vec![0x6a]; sc.extend((0..2_200_000u32).map(|k| (k % 233) as u8)); sc };
         let wide = vpmodel::spec::chain_from_scripts(vpmodel::chain::Coin::Bitcoin, &scripts, &[700, 9], 1, 2, 0, 1_400_000_000);
         let mk = |fault: Fault| Case { chain: wide.clone(), nfiles: 1, cb: Callback::CsvDump, start: None, end: None, fault, stale_tmp: false };
         for (num, delta) in [(1u32, 0i32), (4, 0), (7, 0), (8, -1)] {
